@@ -243,13 +243,39 @@ claim('C15',
       'DESIGN.md 3/C15')
 
 claim('C11',
-      'Bounded symbolic verification of the dipole part of the property: real Interstitial.siteDipoles / jumpDipoles (ProjectTensorBasis, '
-      'site and jump symmetric-tensor bases, group operations chosen at construction) run on ARBITRARY NON-SYMMETRIC symbolic dipoles; for '
-      'every site and jump the populated dipole equals g P g^T for EVERY operation g carrying the representative there, P = symmetrise + '
-      'average over the stabiliser of the representative site / transition (incl. reversing operations), decided by z3 (QF_LRA).',
-      'Does NOT decide the first two sentences (activation barrier = -dD/d beta, elastodiffusion = dD/d strain): a change confined to those '
-      'formulas is not detected. Crystals/networks enumerated. Two defects found and fixed (2-d C2 tensor basis, 2-d mirror eigenvectors).',
+      'Bounded symbolic verification of all three sentences. (1) Activation barrier: the real diffusivity(CalcDeriv=True) runs on z3 terms '
+      'with ALL energies symbolic (monomial algebra); the code\'s own bias solution is lifted to site space and the returned Db must '
+      'equal minus the first-order perturbation of D = D0 + b^T omega^+ b under beta -> beta(1+t) (QF_NRA, exact crystals). '
+      '(2) Elastodiffusion: energies / prefactors on dyadic grid instances, ALL site and transition dipole components symbolic; the '
+      'returned tensor must equal the first-order perturbation of the exact diffusivity under E -> E - P:eps plus the geometric term, '
+      'assembled by the harness in site space with its own dense solve (QF_LRA, decided for all dipoles, any crystal). '
+      '(3) Populated dipoles: real siteDipoles / jumpDipoles on ARBITRARY NON-SYMMETRIC symbolic dipoles; for every site and jump the '
+      'populated dipole equals g P g^T for EVERY operation g carrying the representative there, P = symmetrise + average over the '
+      'stabiliser of the representative site / transition (incl. reversing operations) (QF_LRA).',
+      'Barrier: exact crystals X1s, X1, X4r (+X2, X3 thorough), unit prefactors. Strain derivative: 9 crystal / grid instances quick '
+      '(X1s, X4r, X2, X5, X3, HCP o+t, rect2, monoclinic, BCC octahedral), 3 instances of 14 crystals thorough; the perturbation '
+      'formulas (rate W\' = W (P_T - P_i), rho\' = rho (P_i - <P>), pseudo-inverse derivative contracted with a bias in its range) are '
+      'hand-derived and part of the claim. Crystals/networks enumerated. Defects found and fixed: 2-d C2 tensor basis, 2-d mirror '
+      'eigenvectors, elastodiffusion for symmetry-lowering strain components (e6987bf).',
       'DESIGN.md 3/C11')
+
+claim('C12',
+      'Bounded symbolic verification with a spectral contract: the real Interstitial.losstensors (with siteprob, ratelist, '
+      'symmratelist, siteDipoles) runs on z3 terms; np.linalg.eigh is a contract (fresh ascending eigenvalues, fresh orthogonal '
+      'eigenvectors, A_L V = V diag(w) on the lower triangle).  z3 first decides that the matrix the code diagonalises is the '
+      'symmetrised rate matrix rebuilt by the harness from the inputs; the spectral facts of such a matrix on a connected '
+      'network (zero mode +-sqrt(rho), the rest negative) are then instantiated.  Per path (the skip / merge decisions of the '
+      'code fork): every reported rate is positive and is minus a non-zero eigenvalue, every non-zero mode is reported exactly '
+      'once and rates are pairwise different, every loss tensor has the compliance symmetries and is a sum of squares '
+      '(polynomial identity), and the sum rule sum_modes L == <P(x)P> - <P>(x)<P> follows by a lemma chain whose every link is '
+      'a z3 query; all elastic-dipole components are symbolic throughout.',
+      'Energies: all symbolic for the two-site crystals X2 (quick) / X2b (thorough); dyadic grid instances for the others (X5, X1s, X1, '
+      'X6 p4mm, BCC octahedral (Snoek), triangular edge sites, HCP oct+tet), where the path is chosen by a concrete '
+      'numpy eigen-decomposition at that point (oracle-guided: the solver decides the obligations on that path for all '
+      'dipoles, other paths are not explored).  Prefactors 1.  Guard bands: non-zero rates >= 1e-6 x average rate, rates equal or '
+      'separated by > 1e-4 relative.  The step from (omega.sqrt(rho) = 0, connected network) to the spectral facts is '
+      'Perron-Frobenius, not done by z3.  Disconnected networks are outside.  Floats as reals.',
+      'DESIGN.md 3/C12')
 
 na('C01', 'exact oracle is an infinite-state pair Markov chain reached through Brillouin-zone quadrature, LAPACK and hyp1f1/expi; '
           'agreement only to integration accuracy: no algebraic statement a solver can decide (DESIGN 5)')
@@ -260,8 +286,6 @@ na('C08', 'subject is floating-point conditioning up to 1e16 and an eigh-based a
           'LAPACK eigen-solvers are outside the encodable fragment (DESIGN 5)')
 na('C09', 'compares two different concrete crystals through the numerical Green function; no symbolic input remains (DESIGN 5)')
 na('C10', 'numerical inverse Fourier transform + special functions; an accuracy statement, not an algebraic identity (DESIGN 5)')
-na('C12', 'eigh of an input-dependent matrix with eigenvalue merging by isclose; the sum rule needs completeness of the numerical '
-          'eigenbasis (DESIGN 5)')
 na('C19', 'inputs are integer supercell matrices and atom lists whose length depends on them; reduce/minlattice are data-dependent '
           'recursive searches: making the matrix symbolic degenerates to enumeration of concrete crystals (DESIGN 5)')
 na('C24', 'only input is a concrete crystal/network and a small integer; outputs are finite sets: deciding it is enumeration of '
